@@ -52,7 +52,7 @@ def gen_member(r, used_ids):
         keys = r.sample(IDKEYS, r.choice([1, 1, 2, 3]))
         for k in keys:
             while True:
-                v = r.choice(["alpha", "beta", "check", "p", "orders-1", "x_2", "M", "m"]) + str(r.randint(0, 99))
+                v = r.choice(["alpha", "beta", "check", "p", "orders-1", "x_2", "M", "m", "load.v", "orders.check"]) + str(r.randint(0, 99))
                 if v not in used_ids:
                     break
             used_ids.add(v)
@@ -136,7 +136,9 @@ def check_group(cs, gname, members, manifest_changes, agg, w):
         ident = m["identity"]
         if not ident:
             continue
-        for ref in (f"{gname}#{ident}", f"${gname}.csvpaths.{ident}"):
+        # (an identity with a dot in it can only be written in the '#' form: '.' separates the parts of a '$' reference)
+        dotted = "." in ident
+        for ref in (f"{gname}#{ident}",) if dotted else (f"{gname}#{ident}", f"${gname}.csvpaths.{ident}"):
             agg.count("selections_checked")
             try:
                 one = pm.get_named_paths(ref)
@@ -150,6 +152,8 @@ def check_group(cs, gname, members, manifest_changes, agg, w):
                 w["want"] = [want[k]]
                 return "select-by-identity"
         for ref, exp in ((f"${gname}.csvpaths.{ident}:from", want[k:]), (f"${gname}.csvpaths.{ident}:to", want[: k + 1]), (f"{gname}#{ident}:from", want[k:]), (f"{gname}#{ident}:to", want[: k + 1])):
+            if dotted and ref.startswith("$"):
+                continue
             agg.count("selections_checked")
             try:
                 sel = pm.get_named_paths(ref)
